@@ -335,6 +335,84 @@ func (pc *pathCtx) concretize(t *Term, cap int, what string) *big.Int {
 	return d.Pick
 }
 
+// smallSet enumerates the feasible values of t if there are at most k of them
+// (nil otherwise). The outcome is recorded as a decision so that replays do not
+// repeat the queries.
+func (pc *pathCtx) smallSet(t *Term, k int) []*big.Int {
+	if pc.pos < len(pc.prefix) {
+		d := pc.prefix[pc.pos]
+		pc.decs = append(pc.decs, d)
+		pc.pos++
+		if d.C == 0 {
+			return nil
+		}
+		return d.Excl
+	}
+	var vals []*big.Int
+	pc.solver.Push()
+	complete := false
+	for len(vals) <= k {
+		r := pc.solver.Check()
+		if r == "unsat" {
+			complete = true
+			break
+		}
+		if r != "sat" {
+			break
+		}
+		m, ok := pc.solver.Model([]*Term{})
+		_ = m
+		// fetch the value of t itself
+		pc.solver.define(t)
+		pc.solver.rawNoLog("(get-value (" + t.leafStr() + "))")
+		txt, err := pc.solver.readSexp()
+		if err != nil || !ok {
+			break
+		}
+		toks := tokenize(txt)
+		// ((name value))
+		if len(toks) < 4 {
+			break
+		}
+		// skip "(" "(" and the name token(s): find value at the end
+		v, _, okv := parseValue(toks, valuePos(toks))
+		if !okv {
+			break
+		}
+		vals = append(vals, v)
+		pc.solver.Assert(pc.st.Not(pc.st.Eq(t, pc.constLike(t, v))))
+	}
+	pc.solver.Pop()
+	if !complete || len(vals) == 0 || len(vals) > k {
+		pc.noteDecision(dec{C: 0})
+		return nil
+	}
+	pc.noteDecision(dec{C: len(vals), Excl: vals})
+	return vals
+}
+
+// valuePos finds the start of the value in "((name value))" where name may itself be a compound term.
+func valuePos(toks []string) int {
+	// toks[0]="(" toks[1]="(" then name: either a symbol or a parenthesised expr
+	p := 2
+	if toks[p] == "(" {
+		depth := 0
+		for ; p < len(toks); p++ {
+			if toks[p] == "(" {
+				depth++
+			} else if toks[p] == ")" {
+				depth--
+				if depth == 0 {
+					p++
+					break
+				}
+			}
+		}
+		return p
+	}
+	return p + 1
+}
+
 func (pc *pathCtx) constLike(t *Term, v *big.Int) *Term {
 	switch {
 	case t.sort == SortInt:
